@@ -1,6 +1,8 @@
 import PytmeModel.Model.C04
 import PytmeModel.Proofs.C04Rep
 import PytmeModel.Proofs.C04Lock
+import PytmeModel.Proofs.C04Ext
+import PytmeModel.Proofs.C04Once
 
 /-! # C04 — aggregation over rotations equals the element-wise maximum, also after merging
 
@@ -435,5 +437,568 @@ example : allDone (runSched true (sysInit [1] 0 [[(w5, 0)], [(w7, 1)]]) (raceSch
     (runSched true (sysInit [1] 0 [[(w5, 0)], [(w7, 1)]]) (raceSched ++ [1, 1, 1, 1, 1])).shared.scores.toList = [7] ∧
     (runSched true (sysInit [1] 0 [[(w5, 0)], [(w7, 1)]]) (raceSched ++ [1, 1, 1, 1, 1])).shared.rots.toList = [1] := by decide
 end examples
+
+/-! # second layer: the options and paths around the aggregator
+
+Everything below is about further executable functions of `Model/C04.lean` that the driver runs against the real
+class: the path without a lock, `only_unique_rotations`, rotation keys as the bytes of the matrix and the way a
+caller reads a rotation back from a result, results behind memory maps (`use_memmap`), `merge` on stores with
+different tables. -/
+
+/-! ## the path without a lock (`lock_is_nullcontext`) is the same function of the history -/
+
+/-- `rotation_index = len(mapping); mapping.setdefault(bytes, rotation_index)` without the lock gives, after any
+history, the same scores, identifiers and table as the lock path — every theorem about `run` holds for it. -/
+theorem nolock_path_eq (shape : List Nat) (thr : Int) (h : List (Arr Int × K)) :
+    runNoLock shape thr h = run shape thr h := runNoLock_eq shape thr h
+
+example : (runNoLock [2] 0 [(exA, "r0"), (exB, "r1"), (exC, "r0")]).rots.toList = [0, -1] := by decide
+
+/-! ## `only_unique_rotations` (identifier → matrix dict, inverted by `__iter__`) -/
+
+/-- The score map of the `only_unique_rotations` path is the maximum for *every* history, unique rotations or not. -/
+theorem unique_rotations_scores_eq_max (shape : List Nat) (thr : Int) (h : List (Arr Int × K)) (idx : List Nat)
+    (hin : inShape shape idx = true) :
+    (iterInv (runInv shape thr h) (List.replicate shape.length 0)).scores.getD idx 0 = specMax thr (valsAt h idx) := by
+  simp only [iterInv]
+  rw [runInv_scores, scores_eq_max_threshold _ _ _ _ hin]
+
+/-- When the submitted rotations are pairwise different — what the option's name promises — `tuple(analyzer)` on
+the `only_unique_rotations` path is *equal* (scores, identifiers, table with its order) to the standard path. -/
+theorem unique_rotations_eq_standard (shape : List Nat) (thr : Int) (h : List (Arr Int × K)) (offset : List Nat)
+    (hn : (h.map Prod.snd).Nodup) :
+    iterInv (runInv shape thr h) offset = (run shape thr h).toStore offset :=
+  iterInv_eq_of_nodup shape thr h offset hn
+
+example : ([(exA, "r0"), (exB, "r1")].map Prod.snd).Nodup ∧
+    (iterInv (runInv [2] 0 [(exA, "r0"), (exC, "r1")]) [0]).table = [("r0", 0), ("r1", 1)] := by decide
+
+/-- The hypothesis is needed: when a rotation is submitted twice the inverted dict keeps the later identifier
+only, and a voxel can hold an identifier that the reported mapping does not contain (here `0` at voxel 0). -/
+theorem unique_rotations_needs_unique :
+    let S := iterInv (runInv [2] 0 [(⟨[2], #[5, 0]⟩, "r0"), (⟨[2], #[0, 7]⟩, "r0")]) [0]
+    S.rots.toList = [0, 1] ∧ S.table = [("r0", 1)] ∧ keyOf S.table 0 = none := by decide
+
+/-! ## reading a rotation back from a result
+
+`keyOf t r` is the key whose value is `r` (the loop of the class docstring); keys are `rotation_matrix.tobytes()`,
+`keyMat n` is `np.frombuffer(key, dtype).reshape(n, n)`. -/
+
+/-- `frombuffer(tobytes(m)).reshape(n, n) = m` for every `n × n` matrix, hence keys identify matrices -/
+theorem frombuffer_tobytes {W : Type} {n : Nat} {m m' : List (List W)} (hm : IsMat n m) (hm' : IsMat n m') :
+    keyMat n (matKey m) = m ∧ (matKey m = matKey m' → m = m') :=
+  ⟨keyMat_matKey hm, matKey_injective hm hm'⟩
+
+example : IsMat 2 [[1, 2], [3, 4]] ∧ keyMat 2 (matKey [[1, 2], [3, 4]]) = [[1, 2], [3, 4]] := by decide
+
+/-- Decoding the reported identifier through the reported mapping returns a rotation that was submitted with an
+array attaining the reported score at that voxel — for every history. -/
+theorem rot_decodes_attains (shape : List Nat) (thr : Int) (h : List (Arr Int × K)) (idx : List Nat)
+    (hin : inShape shape idx = true) (hr : (run shape thr h).rots.getD idx 0 ≠ -1) :
+    ∃ a k, (a, k) ∈ h ∧ keyOf (run shape thr h).table ((run shape thr h).rots.getD idx 0) = some k ∧
+      a.getD idx 0 = (run shape thr h).scores.getD idx 0 := by
+  obtain ⟨a, k, i, hm, hl, hri, hv, _⟩ := rot_attains shape thr h idx hin hr
+  exact ⟨a, k, hm, by rw [hri]; exact keyOf_of_lookup (inv_run shape thr h).table_ok hl, hv⟩
+
+/-- The same with the keys produced from matrices: the key found for the identifier, cut into rows, *is* one of
+the submitted matrices, and its array attains the score. -/
+theorem matrix_decode_attains {W : Type} [DecidableEq W] (n : Nat) (shape : List Nat) (thr : Int)
+    (h : List (Arr Int × List (List W))) (hmat : ∀ am ∈ h, IsMat n am.2) (idx : List Nat)
+    (hin : inShape shape idx = true) :
+    let S := run shape thr (h.map (fun am => (am.1, matKey am.2)))
+    S.rots.getD idx 0 ≠ -1 →
+    ∃ a m, (a, m) ∈ h ∧ decodeRot n S.table (S.rots.getD idx 0) = some m ∧ a.getD idx 0 = S.scores.getD idx 0 := by
+  intro S hr
+  obtain ⟨a, k, hm, hk, hv⟩ := rot_decodes_attains shape thr _ idx hin hr
+  obtain ⟨am, ham, e⟩ := List.mem_map.mp hm
+  cases e
+  refine ⟨am.1, am.2, ham, ?_, hv⟩
+  simp only [decodeRot]
+  rw [hk]
+  simp [keyMat_matKey (hmat am ham)]
+
+example : let h : List (Arr Int × List (List Nat)) := [(exA, [[1, 0], [0, 1]]), (exC, [[0, 1], [1, 0]])]
+    (∀ am ∈ h, IsMat 2 am.2) ∧
+    decodeRot 2 (run [2] 0 (h.map (fun am => (am.1, matKey am.2)))).table 1 = some [[0, 1], [1, 0]] := by decide
+
+/-- … on the `only_unique_rotations` path (pairwise different rotations) -/
+theorem unique_rotations_decode_attains (shape : List Nat) (thr : Int) (h : List (Arr Int × K)) (offset idx : List Nat)
+    (hn : (h.map Prod.snd).Nodup) (hin : inShape shape idx = true)
+    (hr : (iterInv (runInv shape thr h) offset).rots.getD idx 0 ≠ -1) :
+    ∃ a k, (a, k) ∈ h ∧
+      keyOf (iterInv (runInv shape thr h) offset).table ((iterInv (runInv shape thr h) offset).rots.getD idx 0) = some k ∧
+      a.getD idx 0 = (iterInv (runInv shape thr h) offset).scores.getD idx 0 := by
+  rw [unique_rotations_eq_standard shape thr h offset hn] at hr ⊢
+  exact rot_decodes_attains shape thr h idx hin hr
+
+/-- … after `merge`, for any store that is a correct aggregate of some partial problems (so: merged once or
+repeatedly, from stores whose tables number the same rotation differently) -/
+theorem represents_decode_attains {thr : Int} {M : Store K} {ts : List (Tile K)} (R : Represents thr M ts)
+    (p q : List Nat) (hl : localIdx M.offset M.scores.shape p = some q) (hr : M.rots.getD q 0 ≠ -1) :
+    ∃ k, keyOf M.table (M.rots.getD q 0) = some k ∧ Attains ts p k (M.scores.getD q 0) := by
+  rcases (R.cell p q hl).2 with ⟨h1, _⟩ | ⟨k, i, hk, hri, hat, _⟩
+  · exact absurd h1 hr
+  · exact ⟨k, by rw [hri]; exact keyOf_of_lookup R.table_ok hk, hat⟩
+
+theorem merge_decode_attains {thr : Int} {d : Nat} (ts : List (Tile K))
+    (hd : ∀ t ∈ ts, t.offset.length = d ∧ t.shape.length = d)
+    {M : Store K} (hM : merge thr (ts.map (tileStore thr)) = some M)
+    (p q : List Nat) (hl : localIdx M.offset M.scores.shape p = some q) (hr : M.rots.getD q 0 ≠ -1) :
+    ∃ k, keyOf M.table (M.rots.getD q 0) = some k ∧ Attains ts p k (M.scores.getD q 0) :=
+  represents_decode_attains (merge_tiles_represents ts hd hM) p q hl hr
+
+example : ∃ M, merge 0 ([tA, tB].map (tileStore 0)) = some M ∧ localIdx M.offset M.scores.shape [2] = some [2] ∧
+    M.rots.getD [2] 0 ≠ -1 ∧ keyOf M.table (M.rots.getD [2] 0) = some "r0" := ⟨_, rfl, by decide⟩
+
+/-- … after `merge`, with matrix keys: the decoded matrix is a submitted matrix attaining the merged score -/
+theorem merge_matrix_decode_attains {W : Type} [DecidableEq W] {thr : Int} (n : Nat) {M : Store (List W)}
+    {ts : List (Tile (List W))} (R : Represents thr M ts)
+    (hmat : ∀ t ∈ ts, ∀ ak ∈ t.hist, ∃ m, IsMat n m ∧ ak.2 = matKey m)
+    (p q : List Nat) (hl : localIdx M.offset M.scores.shape p = some q) (hr : M.rots.getD q 0 ≠ -1) :
+    ∃ m, IsMat n m ∧ decodeRot n M.table (M.rots.getD q 0) = some m ∧ Attains ts p (matKey m) (M.scores.getD q 0) := by
+  obtain ⟨k, hk, hat⟩ := represents_decode_attains R p q hl hr
+  obtain ⟨t, ht, q', a, hq', ha, hv⟩ := hat
+  obtain ⟨m, hm, e⟩ := hmat t ht (a, k) ha
+  simp only at e
+  subst e
+  refine ⟨m, hm, ?_, ⟨t, ht, q', a, hq', ha, hv⟩⟩
+  simp only [decodeRot, hk, Option.map_some, keyMat_matKey hm]
+
+/-! ## `merge` on arbitrary stores: the new table, and identifiers re-mapped into it -/
+
+/-- Whatever the stores are, the merged table numbers its rotations `0, 1, …` without repetition: identifiers and
+rotations of a merged result are in one-to-one correspondence. -/
+theorem merged_table_injective_any (thr : Int) (ss : List (Store K)) :
+    (mergeMany thr ss).table.map Prod.snd = List.range (mergeMany thr ss).table.length ∧
+    ((mergeMany thr ss).table.map Prod.fst).Nodup ∧
+    (∀ k k' i, lookup k (mergeMany thr ss).table = some i → lookup k' (mergeMany thr ss).table = some i → k = k') ∧
+    (∀ k, (lookup k (mergeMany thr ss).table).isSome ↔ ∃ S ∈ ss, (lookup k S.table).isSome) :=
+  ⟨(newTable_ok ss).1, (newTable_ok ss).2, fun _ _ _ h1 h2 => (newTable_ok ss).injective h1 h2, newTable_keys ss⟩
+
+/-- The same rotation may carry different identifiers in different stores: the `lookup_table` of a store sends
+each of its identifiers to an identifier that decodes, in the merged table, to the same rotation. -/
+theorem merge_remap_decode {ss : List (Store K)} {S : Store K} (hS : S ∈ ss) (ok : TableOK S.table)
+    {k : K} {i : Nat} (hk : lookup k S.table = some i) :
+    keyOf (newTable ss) (lutGet (lookupTable S.table (newTable ss)) (i : Int)) = some k ∧
+    keyOf S.table (i : Int) = some k := by
+  have hs : (lookup k (newTable ss)).isSome := (newTable_keys ss k).mpr ⟨S, hS, by simp [hk]⟩
+  obtain ⟨j, hj⟩ := Option.isSome_iff_exists.mp hs
+  rw [lutGet_lookupTable ok hk hj]
+  exact ⟨keyOf_of_lookup (newTable_ok ss) hj, keyOf_of_lookup ok hk⟩
+
+example : let ss := [tileStore 0 tB, tileStore 0 tA]
+    lookup "r0" (tileStore 0 tA).table = some 0 ∧ lookup "r0" (tileStore 0 tB).table = some 1 ∧
+    lookup "r0" (newTable ss) = some 1 ∧ TableOK (tileStore 0 tA).table :=
+  ⟨by decide, by decide, by decide, (tileStore_represents 0 tA).table_ok⟩
+
+/-- `None` entries never matter for the values: two calls whose lists hold the same partial results (with `None`
+entries anywhere, so possibly one through the single-entry shortcut and one through the general path) give the
+same value at every absolute voxel. -/
+theorem mergeOpt_none_entries_irrelevant {thr : Int} {d : Nat} (pairs : List (Store K × List (Tile K)))
+    (hrep : ∀ pr ∈ pairs, Represents thr pr.1 pr.2) (hd : SameDim d (pairs.map Prod.fst))
+    (ps ps' : List (Option (Store K))) (hps : ps.filterMap id = pairs.map Prod.fst)
+    (hps' : ps'.filterMap id = pairs.map Prod.fst)
+    {M M' : Store K} (hM : mergeOpt thr ps = some M) (hM' : mergeOpt thr ps' = some M') (p : List Nat) :
+    M.valOr thr p = M'.valOr thr p :=
+  represents_valOr_eq (List.Perm.refl _) (mergeOpt_represents pairs hrep hd ps hps hM)
+    (mergeOpt_represents pairs hrep hd ps' hps' hM') p
+
+/-! ## results behind memory maps (`use_memmap`) -/
+
+/-- `tuple(analyzer)` with `use_memmap`: what is read through the two memory maps is the in-memory result; two
+files are created, no existing file changes. -/
+theorem iter_memmap_eq (fs : FS) (s : State K) (offset : List Nat) :
+    (iterMem fs s offset).2.load (iterMem fs s offset).1 = s.toStore offset ∧
+    (iterMem fs s offset).1.length = fs.length + 2 ∧
+    ∀ q < fs.length, (iterMem fs s offset).1.read q = fs.read q :=
+  ⟨(iterMem_spec fs s offset).1, (iterMem_spec fs s offset).2.2.1, (iterMem_spec fs s offset).2.2.2⟩
+
+/-- `merge(use_memmap=True)` of memory-mapped stores: read through its memory maps, the result is exactly the
+in-memory `merge` of what the input maps hold (single-entry shortcut and `None` entries included); the input
+files are left as they were. -/
+theorem merge_memmap_eq (thr : Int) (fs : FS) (ps : List (Option (MStore K)))
+    (hv : ∀ m, some m ∈ ps → m.Valid fs) :
+    (mergeOptMem thr fs ps).2.map (MStore.load (mergeOptMem thr fs ps).1) =
+      mergeOpt thr (ps.map (Option.map (MStore.load fs))) ∧
+    (∀ q < fs.length, (mergeOptMem thr fs ps).1.read q = fs.read q) :=
+  mergeOptMem_spec thr fs ps hv
+
+theorem mergeOpt_map_some (thr : Int) (ss : List (Store K)) : mergeOpt thr (ss.map some) = merge thr ss := by
+  match ss with
+  | [] => rfl
+  | [_] => rfl
+  | s1 :: s2 :: rest =>
+    have : ((s1 :: s2 :: rest).map some).filterMap id = s1 :: s2 :: rest := by simp
+    simp only [mergeOpt, merge, List.map_cons]
+    simp
+
+/-- End to end on disk: analyzers of a tiling hand out memory maps, `merge(use_memmap=True)` combines them; what
+the merged memory maps hold is a correct aggregate of the whole tiling (so every statement proved for the
+in-memory merge — maximum, marker, attaining rotation, bijective table, order and grouping — holds for it). -/
+theorem merge_memmap_represents {thr : Int} {d : Nat} (ts : List (Tile K))
+    (hd : ∀ t ∈ ts, t.offset.length = d ∧ t.shape.length = d)
+    (fs : FS) (ms : List (MStore K)) (hv : ∀ m ∈ ms, m.Valid fs)
+    (hload : ms.map (MStore.load fs) = ts.map (tileStore thr))
+    {M : MStore K} (hM : (mergeOptMem thr fs (ms.map some)).2 = some M) :
+    Represents thr (M.load (mergeOptMem thr fs (ms.map some)).1) ts := by
+  have sp := (merge_memmap_eq thr fs (ms.map some) (by
+    intro m hm
+    obtain ⟨m', hm', e⟩ := List.mem_map.mp hm
+    cases e
+    exact hv m hm')).1
+  rw [hM] at sp
+  have e : (ms.map some).map (Option.map (MStore.load fs)) = (ms.map (MStore.load fs)).map some := by
+    simp [List.map_map, Function.comp_def]
+  rw [e, hload, mergeOpt_map_some] at sp
+  exact merge_tiles_represents ts hd sp.symm
+
+section examples
+/-- two analyzers write their results to files 0‥3, the merge creates files 4 and 5 -/
+def fsEx : FS × List (MStore String) :=
+  let a := iterMem [] (run tA.shape 0 tA.hist) tA.offset
+  let b := iterMem a.1 (run tB.shape 0 tB.hist) tB.offset
+  (b.1, [a.2, b.2])
+example : fsEx.2.map (MStore.load fsEx.1) = [tA, tB].map (tileStore 0) := by rfl
+example : (∀ m ∈ fsEx.2, m.Valid fsEx.1) ∧
+    ((mergeOptMem 0 fsEx.1 (fsEx.2.map some)).2.map (fun M => (M.scores, M.rots))) = some (4, 5) ∧
+    ((mergeOptMem 0 fsEx.1 (fsEx.2.map some)).1.read 4).toList = [3, 4, 9] ∧
+    ((mergeOptMem 0 fsEx.1 (fsEx.2.map some)).1.read 5).toList = [0, 1, 0] := by decide
+end examples
+
+/-! ## `MemmapHandler`: one file per rotation, submissions are added to a box of that file -/
+
+/-- After any history whose rotations all have a file, every file holds, voxel by voxel, what it held before plus
+everything submitted for *its* rotation (placed at the box `starts`), files keep their shape, none is created. -/
+theorem memmap_handler_file_eq_sum (paths : Table K) (starts : List Nat) (h : List (Arr Int × K)) (fs : FS)
+    (hk : ∀ ak ∈ h, (lookup ak.2 paths).isSome) :
+    ∃ fs', memmapHandlerRun paths starts fs h = some fs' ∧ fs'.length = fs.length ∧
+      ∀ p, (fs'.read p).shape = (fs.read p).shape ∧
+        ∀ idx, p < fs.length → inShape (fs.read p).shape idx = true →
+          (fs'.read p).getD idx 0 = (fs.read p).getD idx 0 + handlerAdded paths starts h p idx :=
+  memmapHandler_spec paths starts h fs hk
+
+/-- a rotation without a file stops the run (`KeyError`) -/
+theorem memmap_handler_unknown_rotation (paths : Table K) (starts : List Nat) :
+    ∀ (h : List (Arr Int × K)) (fs : FS), (∃ ak ∈ h, lookup ak.2 paths = none) →
+      memmapHandlerRun paths starts fs h = none
+  | [], _, hex => by obtain ⟨_, hm, _⟩ := hex; cases hm
+  | ak :: t, fs, hex => by
+      rw [memmapHandlerRun_cons]
+      cases hc : memmapHandlerCall paths starts fs ak.1 ak.2 with
+      | none => rfl
+      | some fs1 =>
+        simp only [Option.bind_some]
+        apply memmap_handler_unknown_rotation paths starts t fs1
+        obtain ⟨x, hx, hn⟩ := hex
+        rcases List.mem_cons.mp hx with e | hx'
+        · subst e
+          simp [memmapHandlerCall, hn] at hc
+        · exact ⟨x, hx', hn⟩
+
+section examples
+/-- two rotations, two files of shape [3]; arrays of shape [2] are added at position 1 -/
+example : (memmapHandlerRun [("r0", 0), ("r1", 1)] [1] [⟨[3], #[1, 1, 1]⟩, ⟨[3], #[0, 0, 0]⟩]
+      [(⟨[2], #[5, 6]⟩, "r0"), (⟨[2], #[1, 2]⟩, "r1"), (⟨[2], #[10, 20]⟩, "r0")]).map (fun fs => fs.map Arr.toList)
+    = some [[1, 16, 27], [0, 1, 2]] ∧
+    handlerAdded [("r0", 0), ("r1", 1)] [1] [(⟨[2], #[5, 6]⟩, "r0"), (⟨[2], #[1, 2]⟩, "r1"), (⟨[2], #[10, 20]⟩, "r0")] 0 [2] = 26 ∧
+    (memmapHandlerRun [("r0", 0)] [1] [⟨[3], #[1, 1, 1]⟩] [(⟨[2], #[5, 6]⟩, "r7")]).isNone = true := by decide
+end examples
+
+/-! ## the `score_threshold` handed to `merge` -/
+
+/-- `merge(stores, score_threshold=thr')` through its general path (two or more entries, `None`s allowed): when
+every store is a correct aggregate for a threshold of its own that is not above `thr'`, the result is a correct
+aggregate *for `thr'`* of everything — maximum above `thr'`, else `thr'`; marker exactly where nothing exceeds `thr'`;
+attaining rotation; bijective table.  (`merge_represents` is the case of equal thresholds.) -/
+theorem merge_threshold_raise {thr' : Int} {d : Nat} (pairs : List (Store K × List (Tile K)))
+    (hrep : ∀ pr ∈ pairs, ∃ thr, thr ≤ thr' ∧ Represents thr pr.1 pr.2) (hd : SameDim d (pairs.map Prod.fst))
+    (ps : List (Option (Store K))) (hps : ps.filterMap id = pairs.map Prod.fst) (hlen : 2 ≤ ps.length)
+    {M : Store K} (hM : mergeOpt thr' ps = some M) :
+    Represents thr' M (pairs.map Prod.snd).flatten := by
+  match ps, hps, hlen, hM with
+  | [], _, hlen, _ => simp at hlen
+  | [_], _, hlen, _ => simp at hlen
+  | p1 :: p2 :: rest, hps, _, hM =>
+    simp only [mergeOpt] at hM
+    rw [hps] at hM
+    cases hp : pairs.map Prod.fst with
+    | nil => rw [hp] at hM; cases hM
+    | cons S ss =>
+      rw [hp] at hM
+      simp only [Option.some.injEq] at hM
+      subst hM
+      rw [← hp]
+      exact mergeMany_represents_raise pairs hrep hd
+
+example : ∃ M, mergeOpt 3 [some (tileStore 0 tA), some (tileStore 1 tB)] = some M ∧
+    M.scores.toList = [3, 4, 9] ∧ M.rots.toList = [-1, 1, 0] := ⟨_, rfl, by decide⟩
+example : (0 : Int) ≤ 3 ∧ (1 : Int) ≤ 3 ∧ Represents 1 (tileStore 1 tB) [tB] := ⟨by decide, by decide, tileStore_represents 1 tB⟩
+
+/-- The hypothesis is needed: with a threshold *below* the stores' a voxel that was never improved (value = the
+stores' threshold 5, marker) wins against the lower fill value, its marker `-1` is sent through `lookup_table[-1]`,
+the spare last entry, and comes out as identifier 1 — the rotation "r1", which held 1 there, not 5. -/
+theorem merge_lower_threshold_marker_lost :
+    let A := tileStore 5 (⟨[0], [2], [(⟨[2], #[7, 1]⟩, "r0")]⟩ : Tile String)
+    let B := tileStore 5 (⟨[0], [2], [(⟨[2], #[1, 1]⟩, "r1")]⟩ : Tile String)
+    A.rots.toList = [0, -1] ∧ (mergeMany 0 [A, B]).scores.toList = [7, 5] ∧ (mergeMany 0 [A, B]).rots.toList = [0, 1] ∧
+    keyOf (mergeMany 0 [A, B]).table 1 = some "r1" := by decide
+
+/-! ## `only_unique_rotations`, any history -/
+
+/-- For *every* history — rotations repeated or not — on the `only_unique_rotations` path the identifier stored at
+a voxel is the position in the history of a submission that attains the stored score there, and the analyzer's own
+identifier → matrix dict (before `__iter__` inverts it) sends that identifier to the rotation of that submission.
+(What can get lost with repeated rotations is only the inverted dict's entry, `unique_rotations_needs_unique`.) -/
+theorem unique_rotations_id_is_position (shape : List Nat) (thr : Int) (h : List (Arr Int × K)) (idx : List Nat)
+    (hin : inShape shape idx = true) (hr : (runInv shape thr h).rots.getD idx 0 ≠ -1) :
+    ∃ (i : Nat) (a : Arr Int) (k : K), h[i]? = some (a, k) ∧ (runInv shape thr h).rots.getD idx 0 = (i : Int) ∧
+      (i, k) ∈ (runInv shape thr h).imap ∧ a.getD idx 0 = (runInv shape thr h).scores.getD idx 0 ∧
+      thr < (runInv shape thr h).scores.getD idx 0 := by
+  have inv := invI_run shape thr h
+  rcases inv.rot idx hin with ⟨h1, _⟩ | ⟨i, a, k, hm, hri, hv, ht⟩
+  · exact absurd h1 hr
+  · exact ⟨i, a, k, hm, hri, by rw [inv.imap_eq]; exact mem_imap_of_getElem? hm, hv, ht⟩
+
+example : (runInv [2] 0 [((⟨[2], #[5, 0]⟩ : Arr Int), "r0"), (⟨[2], #[0, 7]⟩, "r0")]).rots.toList = [0, 1] ∧
+    (runInv [2] 0 [((⟨[2], #[5, 0]⟩ : Arr Int), "r0"), (⟨[2], #[0, 7]⟩, "r0")]).imap = [(0, "r0"), (1, "r0")] := by decide
+
+theorem handlerAdded_perm (paths : Table K) (starts : List Nat) (p : Nat) (idx : List Nat)
+    {h h' : List (Arr Int × K)} (hp : h.Perm h') :
+    handlerAdded paths starts h p idx = handlerAdded paths starts h' p idx := by
+  induction hp with
+  | nil => rfl
+  | cons x _ ih => simp only [handlerAdded, ih]
+  | swap x y l => simp only [handlerAdded]; omega
+  | trans _ _ ih1 ih2 => rw [ih1, ih2]
+
+/-- `MemmapHandler`: the files do not depend on the order in which the submissions arrive (the comment in the code
+says the lock is not really needed because processes work on different rotations; as atomic actions the
+submissions commute even for the same rotation). -/
+theorem memmap_handler_order_free (paths : Table K) (starts : List Nat) (h h' : List (Arr Int × K)) (fs : FS)
+    (hp : h.Perm h') (hk : ∀ ak ∈ h, (lookup ak.2 paths).isSome) :
+    ∃ fs1 fs2, memmapHandlerRun paths starts fs h = some fs1 ∧ memmapHandlerRun paths starts fs h' = some fs2 ∧
+      ∀ p idx, p < fs.length → inShape (fs.read p).shape idx = true →
+        (fs1.read p).getD idx 0 = (fs2.read p).getD idx 0 := by
+  obtain ⟨fs1, r1, _, f1⟩ := memmap_handler_file_eq_sum paths starts h fs hk
+  obtain ⟨fs2, r2, _, f2⟩ := memmap_handler_file_eq_sum paths starts h' fs
+    (fun ak hak => hk ak (hp.mem_iff.mpr hak))
+  refine ⟨fs1, fs2, r1, r2, ?_⟩
+  intro p idx hlt hin
+  rw [(f1 p).2 idx hlt hin, (f2 p).2 idx hlt hin, handlerAdded_perm paths starts p idx hp]
+
+example : ([((⟨[2], #[5, 6]⟩ : Arr Int), "r0"), (⟨[2], #[1, 2]⟩, "r1")]).Perm [(⟨[2], #[1, 2]⟩, "r1"), (⟨[2], #[5, 6]⟩, "r0")] :=
+  List.Perm.swap _ _ _
+
+/-! ## the whole disk pipeline, no hypotheses about files -/
+
+/-- Analyzers of any tiling write their results to files one after the other (`use_memmap`), starting from any file
+system; `merge(use_memmap=True)` combines the memory maps.  What the merged memory maps hold is a correct aggregate
+of the whole tiling, and every file that existed before (and every analyzer's file) is left as it was. -/
+theorem memmap_pipeline_represents {thr : Int} {d : Nat} (ts : List (Tile K))
+    (hd : ∀ t ∈ ts, t.offset.length = d ∧ t.shape.length = d) (fs : FS) :
+    let w := iterMemAll fs (ts.map (tileStore thr))
+    let r := mergeOptMem thr w.1 (w.2.map some)
+    (∀ M, r.2 = some M → Represents thr (M.load r.1) ts) ∧
+    (∀ q < w.1.length, r.1.read q = w.1.read q) ∧ (∀ q < fs.length, r.1.read q = fs.read q) ∧
+    w.2.map (MStore.load w.1) = ts.map (tileStore thr) := by
+  intro w r
+  obtain ⟨hl, hold, hload, hv⟩ := iterMemAll_spec (ts.map (tileStore thr)) fs
+  have hsame := (merge_memmap_eq thr w.1 (w.2.map some) (by
+    intro m hm
+    obtain ⟨m', hm', e⟩ := List.mem_map.mp hm
+    cases e
+    exact hv m hm')).2
+  refine ⟨?_, hsame, ?_, hload⟩
+  · intro M hM
+    exact merge_memmap_represents ts hd w.1 w.2 hv hload hM
+  · intro q hq
+    have hq' : q < w.1.length := by
+      have : w.1.length = fs.length + 2 * (ts.map (tileStore thr)).length := hl
+      omega
+    rw [hsame q hq', hold q hq]
+
+example : let w := iterMemAll ([] : FS) ([tA, tB].map (tileStore 0))
+    w.2.map (fun m => (m.scores, m.rots)) = [(0, 1), (2, 3)] ∧
+    ((mergeOptMem 0 w.1 (w.2.map some)).2.map (fun M => (M.scores, M.rots))) = some (4, 5) := by decide
+
+/-- What `__iter__` reports on the `only_unique_rotations` path, for every history: the identifier of a rotation is
+the position of its *last* submission (`lastId`: last entry of the identifier → matrix dict carrying that rotation);
+rotations never submitted have none.  Together with `unique_rotations_id_is_position`: an identifier stored at a
+voxel can be read back through the reported mapping exactly when its rotation was not submitted again later. -/
+theorem inverted_map_last_position (shape : List Nat) (thr : Int) (h : List (Arr Int × K)) (offset : List Nat) (k : K) :
+    lookup k (iterInv (runInv shape thr h) offset).table =
+      lastId ((List.range h.length).zip (h.map Prod.snd)) k := by
+  simp only [iterInv]
+  rw [invertMap_lookup, (invI_run shape thr h).imap_eq]
+
+example : lastId ((List.range 3).zip ["r0", "r1", "r0"]) "r0" = some 2 ∧
+    lastId ((List.range 3).zip ["r0", "r1", "r0"]) "r1" = some 1 ∧
+    lastId ((List.range 3).zip ["r0", "r1", "r0"]) "r2" = none := by decide
+
+/-- … and on disk: the identifier read through the merged memory maps decodes, through the merged mapping, to a
+rotation attaining the value read through the merged score map. -/
+theorem memmap_merge_decode_attains {thr : Int} {d : Nat} (ts : List (Tile K))
+    (hd : ∀ t ∈ ts, t.offset.length = d ∧ t.shape.length = d) (fs : FS)
+    {M : MStore K} (hM : (mergeOptMem thr (iterMemAll fs (ts.map (tileStore thr))).1
+        ((iterMemAll fs (ts.map (tileStore thr))).2.map some)).2 = some M)
+    (p q : List Nat) :
+    let S := M.load (mergeOptMem thr (iterMemAll fs (ts.map (tileStore thr))).1
+        ((iterMemAll fs (ts.map (tileStore thr))).2.map some)).1
+    localIdx S.offset S.scores.shape p = some q → S.rots.getD q 0 ≠ -1 →
+    ∃ k, keyOf S.table (S.rots.getD q 0) = some k ∧ Attains ts p k (S.scores.getD q 0) := by
+  intro S hl hr
+  exact represents_decode_attains ((memmap_pipeline_represents ts hd fs).1 M hM) p q hl hr
+
+/-! ## which rotation is reported at a tie -/
+
+/-- The identifier at an improved voxel belongs to the *first* submission whose array holds the final value there:
+every earlier submission is strictly below it (strict `>`: ties keep the first).  With `table_injective` this fixes
+the rotation map completely — `run` is a function of the history, this says which. -/
+theorem rot_first_attaining (shape : List Nat) (thr : Int) (h : List (Arr Int × K)) (idx : List Nat)
+    (hin : inShape shape idx = true) (hr : (run shape thr h).rots.getD idx 0 ≠ -1) :
+    ∃ (j : Nat) (a : Arr Int) (k : K) (i : Nat), h[j]? = some (a, k) ∧ lookup k (run shape thr h).table = some i ∧
+      (run shape thr h).rots.getD idx 0 = (i : Int) ∧ a.getD idx 0 = (run shape thr h).scores.getD idx 0 ∧
+      ∀ (j' : Nat) (a' : Arr Int) (k' : K), j' < j → h[j']? = some (a', k') →
+        a'.getD idx 0 < (run shape thr h).scores.getD idx 0 := by
+  obtain ⟨j, a, k, i, hj, hl, hri, ⟨⟨a1, k1, hj1, hv⟩, hb⟩⟩ := (invFirst_run shape thr h).first idx hin hr
+  rw [hj] at hj1
+  cases hj1
+  exact ⟨j, a, k, i, hj, hl, hri, hv, hb⟩
+
+/-- exA and exB both hold 3 at voxel 0: the first one's rotation is reported, whichever order they come in -/
+example : (run [2] 0 [(exA, "r0"), (exB, "r1")]).rots.getD [0] 0 = 0 ∧
+    keyOf (run [2] 0 [(exB, "r1"), (exA, "r0")]).table ((run [2] 0 [(exB, "r1"), (exA, "r0")]).rots.getD [0] 0) = some "r1" := by
+  decide
+
+/-! ## merging in the given order *is* aggregating everything at once — identifiers and table included -/
+
+/-- `merge` of the analyzers of any tiling, in the given order, is equal to ONE analyzer of the merged volume fed
+every submission of every tile (each array placed at its offset, the threshold outside its box — `bigHist`), tile
+after tile: the same table with the same numbering, and at every voxel the same score and the same rotation
+identifier (`merge_eq_aggregate_all` gave the scores and *an* attaining rotation; this gives the very identifier).
+For the general path of `merge`, any number of tiles, overlapping or not. -/
+theorem merge_eq_aggregate_at_once_exact (thr : Int) (ts : List (Tile K)) :
+    let out := outShape (ts.map (tileStore thr))
+    let M := mergeMany thr (ts.map (tileStore thr))
+    let B := run out thr (bigHist thr out ts)
+    M.table = B.table ∧ M.scores.shape = B.scores.shape ∧
+    ∀ p, inShape out p = true → M.scores.getD p 0 = B.scores.getD p 0 ∧ M.rots.getD p 0 = B.rots.getD p 0 :=
+  mergeMany_eq_aggregate_at_once thr ts
+
+/-- the same for `merge` as called with two or more partial results -/
+theorem merge_two_or_more_eq_at_once (thr : Int) (t1 t2 : Tile K) (ts : List (Tile K)) {M : Store K}
+    (hM : merge thr ((t1 :: t2 :: ts).map (tileStore thr)) = some M) :
+    let out := outShape ((t1 :: t2 :: ts).map (tileStore thr))
+    let B := run out thr (bigHist thr out (t1 :: t2 :: ts))
+    M.table = B.table ∧
+    ∀ p, inShape out p = true → M.scores.getD p 0 = B.scores.getD p 0 ∧ M.rots.getD p 0 = B.rots.getD p 0 := by
+  intro out B
+  simp only [List.map_cons, merge, Option.some.injEq] at hM
+  subst hM
+  have := merge_eq_aggregate_at_once_exact thr (t1 :: t2 :: ts)
+  simp only [List.map_cons] at this
+  exact ⟨this.1, this.2.2⟩
+
+/-- overlapping tiles with different local numberings: merged and at-once agree (table, scores, identifiers) -/
+example : let out := outShape ([tA, tB].map (tileStore 0))
+    let M := mergeMany 0 ([tA, tB].map (tileStore 0))
+    let B := run out 0 (bigHist 0 out [tA, tB])
+    out = [3] ∧ M.table = B.table ∧ M.scores.toList = B.scores.toList ∧ M.rots.toList = B.rots.toList ∧
+    B.rots.toList = [0, 1, 0] := by decide
+
+/-- … and on disk: what the memory maps of `merge(use_memmap=True)` hold for two or more memory-mapped analyzers
+of a tiling is, voxel by voxel and identifier by identifier, the one analyzer fed everything at once. -/
+theorem memmap_merge_eq_at_once (thr : Int) (t1 t2 : Tile K) (ts : List (Tile K)) (fs : FS) (ms : List (MStore K))
+    (hv : ∀ m ∈ ms, m.Valid fs) (hload : ms.map (MStore.load fs) = (t1 :: t2 :: ts).map (tileStore thr))
+    {M : MStore K} (hM : (mergeOptMem thr fs (ms.map some)).2 = some M) :
+    let S := M.load (mergeOptMem thr fs (ms.map some)).1
+    let out := outShape ((t1 :: t2 :: ts).map (tileStore thr))
+    let B := run out thr (bigHist thr out (t1 :: t2 :: ts))
+    S.table = B.table ∧
+    ∀ p, inShape out p = true → S.scores.getD p 0 = B.scores.getD p 0 ∧ S.rots.getD p 0 = B.rots.getD p 0 := by
+  intro S out B
+  have sp := (merge_memmap_eq thr fs (ms.map some) (by
+    intro m hm
+    obtain ⟨m', hm', e⟩ := List.mem_map.mp hm
+    cases e
+    exact hv m hm')).1
+  rw [hM] at sp
+  have e : (ms.map some).map (Option.map (MStore.load fs)) = (ms.map (MStore.load fs)).map some := by
+    simp [List.map_map, Function.comp_def]
+  rw [e, hload, mergeOpt_map_some] at sp
+  exact merge_two_or_more_eq_at_once thr t1 t2 ts sp.symm
+
+example : fsEx.2.map (MStore.load fsEx.1) = (tA :: tB :: []).map (tileStore 0) := by rfl
+
+/-- … and after concurrent submissions under the lock: whatever the schedule, once every process has finished the
+identifier at an improved voxel of the shared analyzer decodes, through the shared mapping, to a rotation that some
+process submitted with an array attaining the shared score there. -/
+theorem concurrent_decode_attains (shape : List Nat) (thr : Int) (work : List (List (Arr Int × K)))
+    (sched : List Nat)
+    (hdone : ∀ j, ((runSched true (sysInit shape thr work) sched).procs j).todo = [])
+    (idx : List Nat) (hin : inShape shape idx = true)
+    (hr : (runSched true (sysInit shape thr work) sched).shared.rots.getD idx 0 ≠ -1) :
+    ∃ a k, (a, k) ∈ work.flatten ∧
+      keyOf (runSched true (sysInit shape thr work) sched).shared.table
+        ((runSched true (sysInit shape thr work) sched).shared.rots.getD idx 0) = some k ∧
+      a.getD idx 0 = (runSched true (sysInit shape thr work) sched).shared.scores.getD idx 0 := by
+  obtain ⟨⟨serial, hmem, hs⟩, _⟩ := concurrent_no_lost_update shape thr work sched hdone
+  rw [hs] at hr ⊢
+  obtain ⟨a, k, hm, hk, hv⟩ := rot_decodes_attains shape thr serial idx hin hr
+  exact ⟨a, k, (hmem _).mp hm, hk, hv⟩
+
+section examples
+/-- hypotheses of `concurrent_decode_attains`: the locked schedule above finishes with an improved voxel -/
+example : let sys := runSched true (sysInit [1] 0 [[(w5, 0)], [(w7, 1)]]) (raceSched ++ [1, 1, 1, 1, 1])
+    allDone sys 2 = true ∧ inShape [1] [0] = true ∧ sys.shared.rots.getD [0] 0 ≠ -1 ∧
+    keyOf sys.shared.table (sys.shared.rots.getD [0] 0) = some 1 := by decide
+
+/-- hypotheses of `merge_matrix_decode_attains`: two overlapping tiles whose rotations are 2 × 2 matrices -/
+def mA : Tile (List Nat) := ⟨[0], [2], [(⟨[2], #[3, 1]⟩, matKey [[1, 0], [0, 1]])]⟩
+def mB : Tile (List Nat) := ⟨[1], [2], [(⟨[2], #[4, -2]⟩, matKey [[0, 1], [1, 0]]), (⟨[2], #[0, 9]⟩, matKey [[1, 0], [0, 1]])]⟩
+example : (∀ t ∈ [mA, mB], ∀ ak ∈ t.hist, ak.2 = matKey [[1, 0], [0, 1]] ∨ ak.2 = matKey [[0, 1], [1, 0]]) ∧
+    IsMat 2 ([[1, 0], [0, 1]] : List (List Nat)) ∧ IsMat 2 ([[0, 1], [1, 0]] : List (List Nat)) ∧
+    decodeRot 2 (mergeMany 0 ([mA, mB].map (tileStore 0))).table
+      ((mergeMany 0 ([mA, mB].map (tileStore 0))).rots.getD [1] 0) = some [[0, 1], [1, 0]] := by decide
+example : Represents 0 (mergeMany 0 ([mA, mB].map (tileStore 0))) [mA, mB] :=
+  merge_tiles_represents (d := 1) [mA, mB] (by decide) rfl
+end examples
+
+/-- `tuple(analyzer)` with `use_memmap` is `array_to_memmap` applied to both arrays of the in-memory result (the
+function the driver runs on every store before `mergeOptMem`) -/
+theorem iterMem_eq_storeToFiles (fs : FS) (s : State K) (offset : List Nat) :
+    iterMem fs s offset = storeToFiles fs (s.toStore offset) := rfl
+
+/-- … and for `merge` as it is called, with `None` entries among two or more raw entries: still equal to the one
+analyzer fed everything (the `None`s are skipped, the order of the others is kept). -/
+theorem mergeOpt_eq_at_once (thr : Int) (ts : List (Tile K)) (ps : List (Option (Store K)))
+    (hps : ps.filterMap id = ts.map (tileStore thr)) (hlen : 2 ≤ ps.length)
+    {M : Store K} (hM : mergeOpt thr ps = some M) :
+    let out := outShape (ts.map (tileStore thr))
+    let B := run out thr (bigHist thr out ts)
+    M.table = B.table ∧
+    ∀ p, inShape out p = true → M.scores.getD p 0 = B.scores.getD p 0 ∧ M.rots.getD p 0 = B.rots.getD p 0 := by
+  intro out B
+  match ps, hps, hlen, hM with
+  | [], _, hlen, _ => simp at hlen
+  | [_], _, hlen, _ => simp at hlen
+  | p1 :: p2 :: rest, hps, _, hM =>
+    simp only [mergeOpt] at hM
+    rw [hps] at hM
+    cases hts : ts.map (tileStore thr) with
+    | nil => rw [hts] at hM; cases hM
+    | cons S ss =>
+      rw [hts] at hM
+      simp only [Option.some.injEq] at hM
+      subst hM
+      have := merge_eq_aggregate_at_once_exact thr ts
+      simp only [hts] at this
+      have hout : out = outShape (S :: ss) := by simp only [out, hts]
+      have hB : B = run (outShape (S :: ss)) thr (bigHist thr (outShape (S :: ss)) ts) := by simp only [B, out, hts]
+      rw [hout, hB]
+      exact ⟨this.1, this.2.2⟩
+
+example : [none, some (tileStore 0 tA), none, some (tileStore 0 tB)].filterMap id = [tA, tB].map (tileStore 0) ∧
+    2 ≤ [none, some (tileStore 0 tA), none, some (tileStore 0 tB)].length := ⟨rfl, by decide⟩
 
 end Pm.C04
